@@ -509,7 +509,7 @@ pub fn check() -> Check {
     )
     .assume("balances are non-negative amounts / sets of ids, as the worktop and buckets produce them")
     .assume("the engine tie-in (the same verdict through ASSERT_* instructions) is not part of this check")
-    .part(Part::new("single", 600_000, 30_000_000, 160, single))
-    .part(Part::new("multi", 1_000_000, 50_000_000, 256, multi))
+    .part(Part::new("single", 2_000_000, 60_000_000, 160, single))
+    .part(Part::new("multi", 3_000_000, 100_000_000, 256, multi))
     .min_nontrivial_pct(20.0)
 }
